@@ -89,6 +89,16 @@ def is_z3(x):
     return isinstance(x, z3.ExprRef)
 
 
+def _has_lambda(t, _seen=None):
+    _seen = set() if _seen is None else _seen
+    if t.get_id() in _seen:
+        return False
+    _seen.add(t.get_id())
+    if z3.is_quantifier(t):
+        return t.is_lambda() or _has_lambda(t.body(), _seen)
+    return any(_has_lambda(c, _seen) for c in t.children())
+
+
 def to_z3(v, want=None):
     """python/z3 scalar -> z3 expr (Int, Real or Bool)."""
     if isinstance(v, bool):
@@ -197,6 +207,17 @@ dset = z3.Function('dset', A2R, A1B, INT, INT, INT)     # dset(M, P, v, n) = #{u
 rset = z3.Function('rset', A2R, A1B, INT, INT, INT)     # rset(M, P, v, n) = #{u < n : P[u] and M[v][u] != 0}
 wset = z3.Function('wset', A2R, A1B, INT, INT, REAL)    # wset(M, P, v, n) = sum_{u < n, P[u]} M[u][v]
 cntb = z3.Function('cntb', A1B, INT, INT)              # #{q < n : b[q]}
+modsum = z3.Function('modsum', A2R, A1I, INT, INT, INT, REAL)    # modsum(W, ci, x, m, n)  = sum_{y<n, ci[y]=m+1} W[x][y]
+modsumT = z3.Function('modsumT', A2R, A1I, INT, INT, INT, REAL)  # modsumT(W, ci, x, m, n) = sum_{y<n, ci[y]=m+1} W[y][x]
+degsum = z3.Function('degsum', A2R, A1I, INT, INT, REAL)         # degsum(W, ci, m, n)  = sum_{x<n, ci[x]=m+1} rowsum(W, x)   (module out-degree)
+degsumT = z3.Function('degsumT', A2R, A1I, INT, INT, REAL)       # degsumT(W, ci, m, n) = sum_{x<n, ci[x]=m+1} colsum(W, x)   (module in-degree)
+agg = z3.Function('agg', A2R, A1I, INT, INT, INT, REAL)          # agg(W, ci, a, b, n) = sum_{x,y<n, ci[x]=a+1, ci[y]=b+1} W[x][y]
+tsum = z3.Function('tsum', A2R, INT, REAL)                       # sum of all entries
+trace1 = z3.Function('trace1', A2R, INT, REAL)
+sumdot = z3.Function('sumdot', A2R, A2R, INT, REAL)              # sum of all entries of the matrix product X.Y (m x m)
+umul = z3.Function('umul', REAL, REAL, REAL)                     # product of two non-constant reals, uninterpreted (contracts with nonlinear='uf')
+udiv = z3.Function('udiv', REAL, REAL, REAL)                     # quotient by a non-constant real, uninterpreted
+Qmod = z3.Function('Qmod', A2R, A1I, REAL, INT, REAL)            # modularity (1/s) sum_{x,y} (W[x][y] - gamma k_out[x] k_in[y] / s) [ci[x] = ci[y]]
 isperm = z3.Function('isperm', A1I, INT, BOOL)          # p restricted to [0,n) is a bijection of [0,n)
 ixperm = z3.Function('ixperm', A2R, A1I, A2R)           # M[np.ix_(p, p)]
 allclose_sym = z3.Function('allclose_T', A2R, INT, BOOL)   # np.allclose(M, M.T)
@@ -256,6 +277,34 @@ def spec_axioms():
     ax.append(z3.ForAll([M, x, r, n], z3.Implies(inx, totFp(SM, n) == totFp(M, n) + sumFp1(r, n) - sumFp1(oldrow, n)), patterns=[totFp(SM, n)]))
     ax.append(z3.ForAll([M, x, r, n], z3.Implies(inx, totFn(SM, n) == totFn(M, n) + sumFn1(r, n) - sumFn1(oldrow, n)), patterns=[totFn(SM, n)]))
     ax.append(z3.ForAll([D, M, x, r, n], z3.Implies(inx, dot2(D, SM, n) == dot2(D, M, n) + dot1(z3.Select(D, x), r, n) - dot1(z3.Select(D, x), oldrow, n)), patterns=[dot2(D, SM, n)]))
+    # node-to-module sums and module degrees under a single label change (Lean: modsum_update, degsum_update)
+    c = z3.Const('c_', A1I)
+    u, l, m, a, b = z3.Ints('u_ l_ m_ a_ b_')
+    gam = z3.Real('g_')
+    Sc = z3.Store(c, u, l)
+    inu = z3.And(0 <= u, u < n)
+    for f, cell in ((modsum, lambda: z3.Select(z3.Select(M, x), u)), (modsumT, lambda: z3.Select(z3.Select(M, u), x))):
+        ax.append(z3.ForAll([M, c, u, l, x, m, n], z3.Implies(inu, f(M, Sc, x, m, n) == f(M, c, x, m, n) + z3.If(l == m + 1, cell(), 0) - z3.If(z3.Select(c, u) == m + 1, cell(), 0)),
+                            patterns=[f(M, Sc, x, m, n)]))
+    ax.append(z3.ForAll([M, c, u, l, m, n], z3.Implies(inu, degsum(M, Sc, m, n) == degsum(M, c, m, n) + z3.If(l == m + 1, sum1(z3.Select(M, u), n), 0) - z3.If(z3.Select(c, u) == m + 1, sum1(z3.Select(M, u), n), 0)),
+                        patterns=[degsum(M, Sc, m, n)]))
+    ax.append(z3.ForAll([M, c, u, l, m, n], z3.Implies(inu, degsumT(M, Sc, m, n) == degsumT(M, c, m, n) + z3.If(l == m + 1, csum(M, u, n), 0) - z3.If(z3.Select(c, u) == m + 1, csum(M, u, n), 0)),
+                        patterns=[degsumT(M, Sc, m, n)]))
+    # GAIN LEMMA (Lean: Qraw_move + nm_modularity, DESIGN Appendix A): moving node u to a different module l changes s*Q by
+    #   (out-part) + (in-part)   for an arbitrary (also asymmetric) W with total weight s != 0
+    ku_o, ku_i = sum1(z3.Select(M, u), n), csum(M, u, n)
+    s_ = tsum(M, n)
+    cu = z3.Select(c, u)
+    wuu = z3.Select(z3.Select(M, u), u)
+    out_part = (modsum(M, c, u, l - 1, n) - modsum(M, c, u, cu - 1, n) + wuu) - udiv(umul(umul(gam, ku_o), degsumT(M, c, l - 1, n) - degsumT(M, c, cu - 1, n) + ku_i), s_)
+    in_part = (modsumT(M, c, u, l - 1, n) - modsumT(M, c, u, cu - 1, n) + wuu) - udiv(umul(umul(gam, ku_i), degsum(M, c, l - 1, n) - degsum(M, c, cu - 1, n) + ku_o), s_)
+    # products / quotients of two symbolic reals are kept uninterpreted (umul/udiv) with the shape the code computes them in
+    ax.append(z3.ForAll([M, c, u, l, gam, n], z3.Implies(z3.And(inu, l != cu, s_ != 0), Qmod(M, Sc, gam, n) - Qmod(M, c, gam, n) == udiv(out_part + in_part, s_)),
+                        patterns=[Qmod(M, Sc, gam, n)]))
+    ra, rb = z3.Reals('ra_ rb_')
+    ax.append(z3.ForAll([ra, rb], z3.Implies(z3.And(ra > 0, rb > 0), udiv(ra, rb) > 0), patterns=[udiv(ra, rb)]))
+    ax.append(z3.ForAll([ra, rb], z3.Implies(z3.And(ra >= 0, rb > 0), udiv(ra, rb) >= 0), patterns=[udiv(ra, rb)]))
+    ax.append(z3.ForAll([ra, rb], umul(ra, rb) == umul(rb, ra), patterns=[umul(ra, rb)]))
     # permutation re-indexing (Lean: Equiv.sum_comp): P = M[ix_(p,p)]
     P = ixperm(M, p)
     ax.append(z3.ForAll([M, p, x, y], z3.Select(z3.Select(P, x), y) == z3.Select(z3.Select(M, z3.Select(p, x)), z3.Select(p, y)),
@@ -317,7 +366,7 @@ class Contract:
     """Sidecar contract of one function (see /verif/contracts/*.py)."""
 
     def __init__(self, module, name, params, requires=(), ensures=(), loops=None, abstract=None, ghost_after=None,
-                 ghost_before=None, notes='', ensures_raises=None, setup=None, assume_after=None, stop_at=None, key=None):
+                 ghost_before=None, notes='', ensures_raises=None, setup=None, assume_after=None, stop_at=None, key=None, nonlinear=None):
         self.module, self.name, self.params = module, name, params
         self.requires, self.ensures = list(requires), list(ensures)
         self.loops = dict(loops or {})
@@ -330,6 +379,7 @@ class Contract:
         self.notes = notes
         self.stop_at = stop_at
         self.key = key or name
+        self.nonlinear = nonlinear
 
 
 class Engine:
@@ -348,8 +398,50 @@ class Engine:
         self.ret_states = []
         self.raise_states = []
         self.loop_counts = {}
+        self.pure_cache = {}
+        self.defs = []
+        self.stmt_ord = {}
+        cnt = {}
+        for node in sorted((x for x in ast.walk(funcdef) if isinstance(x, ast.stmt)), key=lambda x: (x.lineno, x.col_offset)):
+            if isinstance(node, ast.stmt) and not isinstance(node, ast.FunctionDef):
+                k = self._key(node)
+                self.stmt_ord[id(node)] = '%s#%d' % (k, cnt.get(k, 0))
+                cnt[k] = cnt.get(k, 0) + 1
         from . import npspec
         self.np = npspec
+
+    @staticmethod
+    def _key(node):
+        if isinstance(node, (ast.For, ast.While)):
+            return loop_key(node)
+        if isinstance(node, ast.If):
+            return 'if ' + ast.unparse(node.test)
+        return ast.unparse(node)
+
+    def _lookup(self, table, node, key):
+        ko = self.stmt_ord.get(id(node))
+        if ko is not None and ko in table:
+            return ko
+        return key if key in table else None
+
+    # ---- purification of array terms that flow into uninterpreted spec functions -----------------------------------
+    def pure(self, term):
+        """terms containing lambdas cannot be used in quantifier patterns: replace by a constant with a pointwise definition
+        (a conservative extension; the definitions are premises of every obligation). Cached by term identity."""
+        if not _has_lambda(term):
+            return term
+        key = term.get_id()
+        if key in self.pure_cache:
+            return self.pure_cache[key][1]
+        t = fresh('def', term.sort())
+        if isinstance(term.sort().range(), z3.ArraySortRef):
+            x, y = z3.Ints('x!p y!p')
+            self.defs.append(z3.ForAll([x, y], z3.Select(z3.Select(t, x), y) == z3.simplify(z3.Select(z3.Select(term, x), y)), patterns=[z3.Select(z3.Select(t, x), y)]))
+        else:
+            q = z3.Int('q!p')
+            self.defs.append(z3.ForAll([q], z3.Select(t, q) == z3.simplify(z3.Select(term, q)), patterns=[z3.Select(t, q)]))
+        self.pure_cache[key] = (term, t)     # keep the term alive so that its id is not reused
+        return t
 
     # ---- obligations ---------------------------------------------------------------------------
     def oblige(self, state, name, goal, kind='vc'):
@@ -431,6 +523,8 @@ class Engine:
                     r = (other is None)
                 return (z3.Not(r) if is_z3(r) else (not r)) if isinstance(op, ast.IsNot) else r
             raise OutOfSubset('is')
+        if isinstance(op, ast.Eq) and isinstance(a, Ref) and st.heap[a.oid].ndim == 1 and st.heap[a.oid].esort == INT and not isinstance(b, (Ref, Row, Mat, TupleV)):
+            return self.np.eq_mask(self, st, a, b)
         if isinstance(a, (Ref, Row, Mat)) or isinstance(b, (Ref, Row, Mat)):
             return self.np.elementwise2(self, st, lambda x, y: self.compare(op, x, y, st), a, b, esort=BOOL)
         if isinstance(a, str) or isinstance(b, str):
@@ -485,6 +579,13 @@ class Engine:
         x, y = num2(a, b)
         if isinstance(op, ast.Add): return x + y
         if isinstance(op, ast.Sub): return x - y
+        if getattr(self.c, 'nonlinear', None) == 'uf' and isinstance(op, (ast.Mult, ast.Div)):
+            xr, yr = to_z3(x, REAL), to_z3(y, REAL)
+            xc, yc = z3.is_rational_value(z3.simplify(xr)), z3.is_rational_value(z3.simplify(yr))
+            if isinstance(op, ast.Mult) and not xc and not yc and x.sort() == REAL or isinstance(op, ast.Mult) and not xc and not yc and y.sort() == REAL:
+                return umul(xr, yr)
+            if isinstance(op, ast.Div) and not yc:
+                return udiv(xr, yr)
         if isinstance(op, ast.Mult): return x * y
         if isinstance(op, ast.Div):
             return to_z3(x, REAL) / to_z3(y, REAL)
@@ -609,33 +710,47 @@ class Engine:
         if self.c.stop_at is not None and key == self.c.stop_at:
             self.stopped = True
             return [(st, ('return', None))]
-        pre = self.c.ghost_before.get(key)
-        if pre:
-            self.used_ghost.add(('before', key))
-            self.run_ghost(pre, st)
-        if key in self.c.abstract:
-            self.used_abstract.add(key)
-            res = self.abstract_block(node, st, self.c.abstract[key], key)
+        kb = self._lookup(self.c.ghost_before, node, key)
+        if kb is not None:
+            self.used_ghost.add(('before', kb))
+            self.run_ghost(self.c.ghost_before[kb], st)
+        kab = self._lookup(self.c.abstract, node, key)
+        if kab is not None:
+            self.used_abstract.add(kab)
+            res = self.abstract_block(node, st, self.c.abstract[kab], kab)
         else:
             m = getattr(self, 'st_' + type(node).__name__, None)
             if m is None:
                 raise OutOfSubset('statement %s: %s' % (type(node).__name__, ast.unparse(node)[:60]))
             res = m(node, st)
-        post = self.c.ghost_after.get(key)
-        asm = self.c.assume_after.get(key)
-        if post or asm:
-            self.used_ghost.add(('after', key))
+        ka = self._lookup(self.c.ghost_after, node, key)
+        kas = self._lookup(self.c.assume_after, node, key)
+        if ka is not None or kas is not None:
+            for kk in (ka, kas):
+                if kk is not None:
+                    self.used_ghost.add(('after', kk))
             for s2, out in res:
                 if out == 'fall':
-                    if post:
-                        self.run_ghost(post, s2)
-                    if asm:
-                        for clause in asm:
+                    if ka is not None:
+                        self.run_ghost(self.c.ghost_after[ka], s2)
+                    if kas is not None:
+                        for clause in self.c.assume_after[kas]:
                             s2.pc.append(truth(self.ev_str(clause, s2)))
         return res
 
     def run_ghost(self, code, st):
         for g in ast.parse(code).body:
+            if isinstance(g, ast.Expr) and isinstance(g.value, ast.Call) and isinstance(g.value.func, ast.Name) and g.value.func.id == 'check':
+                # check('name', expr): intermediate assertion (cut): proved as its own obligation, then available as a premise
+                self.in_spec = getattr(self, 'in_spec', 0) + 1
+                try:
+                    goal = truth(self.ev(g.value.args[1], st))
+                finally:
+                    self.in_spec -= 1
+                self.nchecks = getattr(self, 'nchecks', 0) + 1
+                self.oblige(st, 'cut/%s/c%d' % (g.value.args[0].value, self.nchecks), goal)
+                st.pc.append(goal)
+                continue
             if isinstance(g, ast.Expr) and isinstance(g.value, ast.Call) and isinstance(g.value.func, ast.Name) and g.value.func.id == 'assume':
                 self.in_spec = getattr(self, 'in_spec', 0) + 1
                 try:
@@ -1123,11 +1238,11 @@ def _sb_arg(eng, st, node):
 
 def _term2(eng, st, v):
     if isinstance(v, Opaque) and v.kind == 'snapshot':
-        return v.obj.term
+        return eng.pure(v.obj.term)
     if isinstance(v, Ref):
-        return st.heap[v.oid].term
+        return eng.pure(st.heap[v.oid].term)
     if isinstance(v, Mat):
-        return st.heap[eng.np.materialise(eng, st, v).oid].term
+        return eng.pure(st.heap[eng.np.materialise(eng, st, v).oid].term)
     raise ContractError('matrix expected, got %r' % (v,))
 
 
@@ -1147,7 +1262,7 @@ def _sb_dot2(eng, st, node):
 
 def _sb_isperm(eng, st, node):
     v = eng.ev(node.args[0], st)
-    t = v.obj.term if isinstance(v, Opaque) else st.heap[v.oid].term
+    t = eng.pure(v.obj.term if isinstance(v, Opaque) else st.heap[v.oid].term)
     return isperm(t, to_z3(eng.ev(node.args[1], st), INT))
 
 
@@ -1186,13 +1301,43 @@ def _sb_lam1(eng, st, node):
     return eng.np.materialise(eng, st, Row(n, (lambda q: truth(fn(q))) if srt == BOOL else fn, srt))
 
 
+def _sb_lam2(eng, st, node):
+    """lam2(lambda a, b: expr, m): the m x m real matrix whose (a, b) entry is expr."""
+    lam = node.args[0]
+    na, nb = lam.args.args[0].arg, lam.args.args[1].arg
+    m = eng.ev(node.args[1], st)
+
+    def fn(a, b):
+        saved = {k: st.ghost.get(k) for k in (na, nb)}
+        shadow = {k: st.env.pop(k) for k in (na, nb) if k in st.env}
+        st.ghost[na], st.ghost[nb] = a, b
+        try:
+            return eng.ev(lam.body, st)
+        finally:
+            for k in (na, nb):
+                if saved[k] is None:
+                    st.ghost.pop(k, None)
+                else:
+                    st.ghost[k] = saved[k]
+            st.env.update(shadow)
+    return eng.np.materialise(eng, st, Mat((m, m), fn, REAL))
+
+
+def _sb_unique_witness(eng, st, node):
+    """unique_witness(t): a position whose rank under the most recent np.unique(..., return_inverse=True) is t."""
+    wit = st.ghost.get('unique_witness_last')
+    if wit is None:
+        raise ContractError('no np.unique call seen')
+    return wit(to_z3(eng.ev(node.args[0], st), INT))
+
+
 def _term1b(eng, st, v):
     if isinstance(v, Ref):
-        return st.heap[v.oid].term
+        return eng.pure(st.heap[v.oid].term)
     if isinstance(v, Row):
-        return st.heap[eng.np.materialise(eng, st, v).oid].term
+        return eng.pure(st.heap[eng.np.materialise(eng, st, v).oid].term)
     if isinstance(v, Opaque) and v.kind == 'snapshot':
-        return v.obj.term
+        return eng.pure(v.obj.term)
     raise ContractError('1-D array expected, got %r' % (v,))
 
 
@@ -1259,6 +1404,113 @@ def _sb_member(eng, st, node):
     return z3.Exists([t], z3.And(t >= 0, t < to_z3(o.shape[0], INT), z3.Select(o.term, t) == q))
 
 
+def _term1i(eng, st, v):
+    if isinstance(v, Ref):
+        return eng.pure(st.heap[v.oid].term)
+    if isinstance(v, Opaque) and v.kind == 'snapshot':
+        return eng.pure(v.obj.term)
+    if isinstance(v, Row):
+        return eng.pure(st.heap[eng.np.materialise(eng, st, v).oid].term)
+    raise ContractError('1-D int array expected, got %r' % (v,))
+
+
+def _mk_mod(fn, nint):
+    def sb(eng, st, node):
+        M = _term2(eng, st, eng.ev(node.args[0], st))
+        c = _term1i(eng, st, eng.ev(node.args[1], st))
+        rest = [to_z3(eng.ev(a, st), INT) for a in node.args[2:]]
+        return fn(M, c, *rest)
+    return sb
+
+
+def _sb_Qmod(eng, st, node):
+    M = _term2(eng, st, eng.ev(node.args[0], st))
+    c = _term1i(eng, st, eng.ev(node.args[1], st))
+    return Qmod(M, c, to_z3(eng.ev(node.args[2], st), REAL), to_z3(eng.ev(node.args[3], st), INT))
+
+
+def _sb_lemma_modularity(eng, st, node):
+    """Code-independent facts about node-to-module sums, module degrees, the aggregated matrix and modularity (Lean: VerifLemmas),
+    instantiated for the given network W, label vector ci and size n.  Returned as one conjunction of implications.
+      total:   labels in 1..n            => sum_m modsum(W,ci,x,m) = rowsum(W,x), sum_m modsumT(W,ci,x,m) = colsum(W,x)
+      column:  sum_x modsum(W,ci,x,m) = degsumT(W,ci,m)  and  sum_x modsumT(W,ci,x,m) = degsum(W,ci,m)
+      empty:   no node carries label m+1 => modsum = modsumT = 0 for every node, degsum = degsumT = 0
+      symm:    W symmetric               => modsumT = modsum, degsumT = degsum, colsum = rowsum, agg(a,b) = agg(b,a)
+    The statements about `knm`-like matrices are phrased for an arbitrary matrix K that agrees with modsum cell by cell."""
+    W = _term2(eng, st, eng.ev(node.args[0], st))
+    c = _term1i(eng, st, eng.ev(node.args[1], st))
+    n = to_z3(eng.ev(node.args[2], st), INT)
+    x, y, m, a, b = z3.Ints('x!m y!m m!m a!m b!m')
+    inx, iny, inm = z3.And(x >= 0, x < n), z3.And(y >= 0, y < n), z3.And(m >= 0, m < n)
+    sym = z3.ForAll([x, y], z3.Implies(z3.And(inx, iny), z3.Select(z3.Select(W, x), y) == z3.Select(z3.Select(W, y), x)))
+    out = []
+    nolabel = z3.ForAll([y], z3.Implies(iny, z3.Select(c, y) != m + 1))
+    out.append(z3.ForAll([x, m], z3.Implies(nolabel, modsum(W, c, x, m, n) == 0), patterns=[modsum(W, c, x, m, n)]))
+    out.append(z3.ForAll([x, m], z3.Implies(nolabel, modsumT(W, c, x, m, n) == 0), patterns=[modsumT(W, c, x, m, n)]))
+    out.append(z3.ForAll([m], z3.Implies(nolabel, degsum(W, c, m, n) == 0), patterns=[degsum(W, c, m, n)]))
+    out.append(z3.ForAll([m], z3.Implies(nolabel, degsumT(W, c, m, n) == 0), patterns=[degsumT(W, c, m, n)]))
+    out.append(z3.Implies(sym, z3.And(
+        z3.ForAll([x, m], z3.Implies(inx, modsumT(W, c, x, m, n) == modsum(W, c, x, m, n)), patterns=[modsumT(W, c, x, m, n)]),
+        z3.ForAll([m], degsumT(W, c, m, n) == degsum(W, c, m, n), patterns=[degsumT(W, c, m, n)]),
+        z3.ForAll([x], z3.Implies(inx, csum(W, x, n) == sum1(z3.Select(W, x), n)), patterns=[csum(W, x, n)]),
+        z3.ForAll([a, b], agg(W, c, a, b, n) == agg(W, c, b, a, n), patterns=[agg(W, c, a, b, n)]))))
+    return z3.And(*out)
+
+
+def _sb_lemma_knm_sums(eng, st, node):
+    """LEMMA (Lean: knm_row_total, knm_col_total): if K agrees cell by cell with the node-to-module sums of (W, ci) and all
+    labels lie in 1..n, then the row sums of K are the row sums of W and the column sums of K are the module in-degrees;
+    the transposed statement for node-to-module sums of incoming weight.  lemma_knm_sums(K, W, ci, n, 'out'|'in')."""
+    K = _term2(eng, st, eng.ev(node.args[0], st))
+    W = _term2(eng, st, eng.ev(node.args[1], st))
+    c = _term1i(eng, st, eng.ev(node.args[2], st))
+    n = to_z3(eng.ev(node.args[3], st), INT)
+    kind = node.args[4].value if len(node.args) > 4 else 'out'
+    x, m, y = z3.Ints('x!k m!k y!k')
+    inx, inm = z3.And(x >= 0, x < n), z3.And(m >= 0, m < n)
+    f = modsum if kind == 'out' else modsumT
+    hyp = z3.And(z3.ForAll([x, m], z3.Implies(z3.And(inx, inm), z3.Select(z3.Select(K, x), m) == f(W, c, x, m, n))),
+                 z3.ForAll([y], z3.Implies(z3.And(y >= 0, y < n), z3.And(z3.Select(c, y) >= 1, z3.Select(c, y) <= n))))
+    rowtot = (lambda xx: sum1(z3.Select(W, xx), n)) if kind == 'out' else (lambda xx: csum(W, xx, n))
+    coltot = (lambda mm: degsumT(W, c, mm, n)) if kind == 'out' else (lambda mm: degsum(W, c, mm, n))
+    concl = z3.And(z3.ForAll([x], z3.Implies(inx, sum1(z3.Select(K, x), n) == rowtot(x)), patterns=[sum1(z3.Select(K, x), n)]),
+                   z3.ForAll([m], z3.Implies(inm, csum(K, m, n) == coltot(m)), patterns=[csum(K, m, n)]))
+    return z3.Implies(hyp, concl)
+
+
+def _sb_lemma_relabel(eng, st, node):
+    """LEMMA (Lean: Q_relabel): modularity depends on the labels only through the equality pattern.
+    lemma_relabel(W, c1, c2, gamma, n): (forall y,z<n: c1[y]==c1[z] <-> c2[y]==c2[z]) => Q(W,c1) == Q(W,c2)."""
+    W = _term2(eng, st, eng.ev(node.args[0], st))
+    c1 = _term1i(eng, st, eng.ev(node.args[1], st))
+    c2 = _term1i(eng, st, eng.ev(node.args[2], st))
+    g = to_z3(eng.ev(node.args[3], st), REAL)
+    n = to_z3(eng.ev(node.args[4], st), INT)
+    y, zz = z3.Ints('y!r z!r')
+    hyp = z3.ForAll([y, zz], z3.Implies(z3.And(y >= 0, y < n, zz >= 0, zz < n), (z3.Select(c1, y) == z3.Select(c1, zz)) == (z3.Select(c2, y) == z3.Select(c2, zz))))
+    return z3.Implies(hyp, Qmod(W, c1, g, n) == Qmod(W, c2, g, n))
+
+
+def _sb_lemma_q_from_aggregate(eng, st, node):
+    """LEMMA (Lean: q_from_aggregate, DESIGN Appendix A.2): if w is the module-by-module aggregate of W for labels ci in 1..m,
+    X = w / s cell by cell and s = total weight != 0, then trace(w)/s - gamma * sum(X.X) is the modularity of (W, ci).
+    lemma_q_from_aggregate(w, X, W, ci, gamma, s, m, n)."""
+    w = _term2(eng, st, eng.ev(node.args[0], st))
+    X = _term2(eng, st, eng.ev(node.args[1], st))
+    W = _term2(eng, st, eng.ev(node.args[2], st))
+    c = _term1i(eng, st, eng.ev(node.args[3], st))
+    g = to_z3(eng.ev(node.args[4], st), REAL)
+    s_ = to_z3(eng.ev(node.args[5], st), REAL)
+    m = to_z3(eng.ev(node.args[6], st), INT)
+    n = to_z3(eng.ev(node.args[7], st), INT)
+    a, b, y = z3.Ints('a!q b!q y!q')
+    inab = z3.And(a >= 0, a < m, b >= 0, b < m)
+    hyp = z3.And(z3.ForAll([a, b], z3.Implies(inab, z3.And(z3.Select(z3.Select(w, a), b) == agg(W, c, a, b, n), z3.Select(z3.Select(X, a), b) == udiv(z3.Select(z3.Select(w, a), b), s_)))),
+                 z3.ForAll([y], z3.Implies(z3.And(y >= 0, y < n), z3.And(z3.Select(c, y) >= 1, z3.Select(c, y) <= m))),
+                 s_ == tsum(W, n), s_ != 0)
+    return z3.Implies(hyp, udiv(trace1(w, m), s_) - umul(g, sumdot(X, X, m)) == Qmod(W, c, g, n))
+
+
 def _sb_same_object(eng, st, node):
     a, b = eng.ev(node.args[0], st), eng.ev(node.args[1], st)
     return isinstance(a, Ref) and isinstance(b, Ref) and a.oid == b.oid
@@ -1297,6 +1549,8 @@ SPEC_BUILTINS = {
     'totF': _mk_specfn(totF, 1), 'totFp': _mk_specfn(totFp, 1), 'totFn': _mk_specfn(totFn, 1),
     'rpos': _mk_specfn(rpos, 2), 'rneg': _mk_specfn(rneg, 2), 'cpos': _mk_specfn(cpos, 2), 'cneg': _mk_specfn(cneg, 2),
     'dot2': _sb_dot2, 'isperm': _sb_isperm, 'same_object': _sb_same_object, 'unchanged': _sb_unchanged,
-    'snapshot': _sb_snapshot, 'argref': _sb_argref, 'lam1': _sb_lam1, 'member': _sb_member, 'dset': _sb_dset(dset), 'rset': _sb_dset(rset), 'wset': _sb_dset(wset), 'cntb': _sb_cntb,
+    'snapshot': _sb_snapshot, 'argref': _sb_argref, 'lam1': _sb_lam1, 'lam2': _sb_lam2, 'unique_witness': _sb_unique_witness, 'member': _sb_member, 'dset': _sb_dset(dset), 'rset': _sb_dset(rset), 'wset': _sb_dset(wset), 'cntb': _sb_cntb,
+    'modsum': _mk_mod(modsum, 3), 'modsumT': _mk_mod(modsumT, 3), 'degsum': _mk_mod(degsum, 2), 'degsumT': _mk_mod(degsumT, 2), 'agg': _mk_mod(agg, 3),
+    'Qmod': _sb_Qmod, 'tsum': _mk_specfn(tsum, 1), 'lemma_modularity': _sb_lemma_modularity, 'lemma_knm_sums': _sb_lemma_knm_sums, 'lemma_relabel': _sb_lemma_relabel, 'lemma_q_from_aggregate': _sb_lemma_q_from_aggregate,
     'lemma_masked_degree': _sb_lemma_masked_degree, 'lemma_degree_monotone': _sb_lemma_degree_monotone, 'result': _sb_result, 'raised': _sb_raised, 'shape_is': _sb_shape_is,
 }
